@@ -74,6 +74,7 @@ type scn struct {
 	cond     *sync.Cond
 	lines    []string
 	peers    []string
+	peerPubs []string
 	counts   map[string]int
 	gates    map[string]chan struct{}
 	attempt  int
@@ -107,9 +108,17 @@ func (s *scn) ev(format string, a ...interface{}) {
 		w = l[:i]
 	}
 	s.counts[w]++
+	if w == "fut" {
+		if f := strings.Fields(l); len(f) >= 2 {
+			s.counts["fut:"+f[1]]++
+		}
+	}
 	s.cond.Broadcast()
 	s.mu.Unlock()
 }
+
+// waitFut: until the watcher of future n reported
+func (s *scn) waitFut(n int) bool { return s.waitCount(fmt.Sprintf("fut:%d", n), 1) }
 
 func (s *scn) bump(key string) {
 	s.mu.Lock()
@@ -146,20 +155,44 @@ func (s *scn) release(name string) {
 }
 
 // waitCount blocks until counter key reached n; a miss is a liveness failure of the scenario
-func (s *scn) waitCount(key string, n int) bool {
-	deadline := time.Now().Add(waitBound)
-	t := time.AfterFunc(waitBound, func() { s.mu.Lock(); s.cond.Broadcast(); s.mu.Unlock() })
+func (s *scn) waitCount(key string, n int) bool { return s.waitCountD(key, n, waitBound, true) }
+
+func (s *scn) waitCountD(key string, n int, bound time.Duration, record bool) bool {
+	deadline := time.Now().Add(bound)
+	t := time.AfterFunc(bound+time.Millisecond, func() { s.mu.Lock(); s.cond.Broadcast(); s.mu.Unlock() })
 	defer t.Stop()
 	s.mu.Lock()
 	defer s.mu.Unlock()
 	for s.counts[key] < n {
 		if time.Now().After(deadline) {
-			s.fails = append(s.fails, fmt.Sprintf("wait:%s>=%d(at-%d)", key, n, s.counts[key]))
+			if record {
+				s.fails = append(s.fails, fmt.Sprintf("wait:%s>=%d(at-%d)", key, n, s.counts[key]))
+			}
 			return false
 		}
 		s.cond.Wait()
 	}
 	return true
+}
+
+// recovers: a running service gets a fresh command through, whatever happened before (the peers'
+// failure plans are finite; a command lost with its connection is not re-sent, so a new one is tried)
+func (s *scn) recovers() {
+	for i := 0; i < 16; i++ {
+		var a int
+		s.via(func() { a = s.cmd(pub("final", fmt.Sprintf("%d", i), 1)) })
+		if s.waitCountD(fmt.Sprintf("fut:%d", a), 1, 1500*time.Millisecond, false) {
+			s.mu.Lock()
+			st := s.futSt[a]
+			s.mu.Unlock()
+			if st == "completed" {
+				return
+			}
+		}
+	}
+	s.mu.Lock()
+	s.fails = append(s.fails, "no-fresh-command-completed-after-the-failure-plans-ran-out")
+	s.mu.Unlock()
 }
 
 func (s *scn) count(key string) int {
@@ -232,6 +265,9 @@ func (s *scn) peerSaw(conn int, pkt packet.Generic) {
 			return
 		}
 		l = fmt.Sprintf("%d %d %s", conn, v.ID, body{kind: 'p', msg: v.Message}.text())
+		s.mu.Lock()
+		s.peerPubs = append(s.peerPubs, string(v.Message.Payload))
+		s.mu.Unlock()
 	default:
 		return
 	}
